@@ -50,6 +50,10 @@ type Node struct {
 	Struct bool
 	// Tag is free for callers (e.g. the Go type a reflective dump saw).
 	Tag string
+	// KeySpell maps a key of this mapping (the string a reader ends up with) to a plain, untagged scalar
+	// spelling for YAML, e.g. "31" -> 0x1f: YAML keys need not be strings, readers canonicalise them
+	// (bool -> true/false, int -> decimal, float -> %e). JSON writes the key itself.
+	KeySpell map[string]string
 	// Share groups structurally identical subtrees the Author wants rendered
 	// as one YAML anchor plus aliases (0 = none). JSON renders them inline.
 	Share int
@@ -418,6 +422,9 @@ func (n *Node) toYAMLPlain(st *YAMLStyle, depth int, inFlow bool) *yaml.Node {
 		}
 		for i, k := range n.Keys {
 			kn := &yaml.Node{Kind: yaml.ScalarNode, Tag: "!!str", Value: k}
+			if sp, ok := n.KeySpell[k]; ok && st != nil {
+				kn = &yaml.Node{Kind: yaml.ScalarNode, Value: sp}
+			}
 			y.Content = append(y.Content, kn, n.Vals[i].toYAML(st, depth+1, flow))
 		}
 		return y
@@ -536,10 +543,27 @@ func fromYAMLNode(y *yaml.Node, depth int) (*Node, error) {
 			if err != nil {
 				return nil, err
 			}
-			if n.Has(k.Value) {
-				return nil, fmt.Errorf("duplicate key %q", k.Value)
+			kv := k.Value
+			switch k.ShortTag() {
+			case "!!bool", "!!int", "!!float":
+				// a key that is not a string means its canonical text
+				var x any
+				if err := k.Decode(&x); err != nil {
+					return nil, err
+				}
+				switch k.ShortTag() {
+				case "!!bool":
+					kv = fmt.Sprintf("%t", x)
+				case "!!int":
+					kv = fmt.Sprintf("%d", x)
+				default:
+					kv = fmt.Sprintf("%e", x)
+				}
 			}
-			n.Keys = append(n.Keys, k.Value)
+			if n.Has(kv) {
+				return nil, fmt.Errorf("duplicate key %q", kv)
+			}
+			n.Keys = append(n.Keys, kv)
 			n.Vals = append(n.Vals, v)
 		}
 		return n, nil
